@@ -12,7 +12,9 @@
                 `sorted(s)` sorts.  `sorted` is a real sort (it keeps repetitions), so it is right for lists and sets alike.
     `Py.Tbl`    `self.get(columns, **kw)` on the ATOM table `t : List Atom` (rowID = position): the rows of the table in rowID
                 order for which every keyword condition holds, projected on the requested columns — the selection semantics of
-                C03 (`Spec.getOn`, proved of the SQL text in Props/C03K); `Model.chainRows` / `Model.rowsAt` are instances.
+                C03 (`Spec.selected` of Spec/C03.lean, proved of `get` and of its SQL text in Props/C03, C03K); that `select` with
+                the conditions the translator emits IS `Spec.selected` is proved in Proofs/GenContactsTbl.lean;
+                `Model.chainRows` / `Model.rowsAt` are instances.
     `Py.Np`     the NumPy calls of the contact loop.  `np.array(rows)` of rows that mix numbers and strings is NumPy's string
                 array; `.astype(float)` / `.astype(int)` parse the strings back — an exact round trip for doubles (shortest
                 repr) and ints, so both are the identity on the values (assumption of C05, sampled by its correspondence run).
